@@ -681,7 +681,9 @@ class Collection(object):
                 existing_document = to_insert
                 was_insert = True
             else:
-                original_document_snapshot = copy.deepcopy(existing_document)
+                # Apply the update to a copy, and only store it once it succeeded.
+                original_document_snapshot = existing_document
+                existing_document = copy.deepcopy(existing_document)
                 updated_existing = True
             num_matched += 1
             first = True
@@ -920,11 +922,14 @@ class Collection(object):
 
                 # Make sure the ID was not change.
                 if original_document_snapshot.get('_id') != existing_document.get('_id'):
-                    # Rollback.
-                    self._store[original_document_snapshot['_id']] = original_document_snapshot
                     raise WriteError(
                         "After applying the update, the (immutable) field '_id' was found to have "
                         'been altered to _id: {}'.format(existing_document.get('_id')))
+
+                store_key = original_document_snapshot['_id']
+                if isinstance(store_key, dict):
+                    store_key = helpers.hashdict(store_key)
+                self._store[store_key] = existing_document
 
                 # Make sure it still respect the unique indexes and, if not, to
                 # revert modifications
@@ -933,7 +938,7 @@ class Collection(object):
                     num_updated += 1
                 except DuplicateKeyError:
                     # Rollback.
-                    self._store[original_document_snapshot['_id']] = original_document_snapshot
+                    self._store[store_key] = original_document_snapshot
                     raise
 
             if not multi:
